@@ -290,6 +290,9 @@ func VerifUnit(fn string, source graph.Source, layers map[string]int) (before, a
 		phase2.VerifVbalance(G)
 	case "normalize":
 		phase2.VerifNormalize(G)
+	case "ns":
+		// the whole network-simplex layering of one connected acyclic component, default options
+		phase2.NetworkSimplex.Process(G, ig.Params{NetworkSimplexThoroughness: 28, NetworkSimplexBalance: ig.OptionNsBalanceV})
 	default:
 		panic("VerifUnit: unknown function " + fn)
 	}
